@@ -46,7 +46,10 @@ class Normalisation(Facet):
         mat = materialise(spec)
         try:
             info = SpecInfo(spec, mat.classes)
-            any_weight = any(c.get("weight") is not None for c in spec["concretes"] + spec["abstracts"])
+            # "a grammar extracted from classes carrying production weights": a weighted class that is
+            # neither handed to extract_grammar nor part of the resulting grammar carries no obligation
+            relevant = set(spec["considered"]) | info.registered()
+            any_weight = any(c.get("weight") is not None and c["name"] in relevant for c in spec["concretes"] + spec["abstracts"])
             rec.label("weighted" if any_weight else "unweighted", f"extractions={case['extractions']}")
             prev = None
             for it in range(case["extractions"]):
@@ -172,6 +175,18 @@ class Choosers(Facet):
                     base = target // (ctx.depth + 1) if n in g.recursive_prods else target - g.get_distance_to_terminal(n)
                     return base * weights[n]
 
+                if not any(eff(x) > 0 for x in alts):
+                    # every depth factor of the decider is zero here: the grammar's weights are all
+                    # that is left to go by, and a positive-weight production IS available
+                    rec.label("progressive:all-depth-factors-zero")
+                    for d in sorted({lo, hi, (lo + hi) // 2}):
+                        r = ProgressivelyTerminalDecider(FixedSource.make(d), g).choose_production_alternatives(mat.classes[a], list(alts), ctx)
+                        if mat.names[r] in zero:
+                            rec.fail(
+                                "C19/chooser/progressive-decider-returns-zero-weight-production/all-depth-factors-zero",
+                                f"rule {a} at depth {ctx.depth}: every depth factor of ProgressivelyTerminalDecider is 0, it returns {mat.names[r]} (declared weight 0) although {[p for p in pos]} have positive weight (grammar weights {dict((mat.names[x], weights[x]) for x in alts)}); {spec_str(spec)}",
+                            )
+                            return
                 if any(eff(x) > 0 for x in alts):
                     effs = [eff(x) for x in alts]
                     accs = [int(x * 100000) for x in accumulate(effs)]
